@@ -262,10 +262,13 @@ def lib_proofs(ns):
   | none => rfl
   | some a =>
     simp only [Outcome.unwrap, bind, Outcome.bind]
-    rw [sliceCopy_mid _ _ 0 {el} (by omega) (by simp) (by simp [{toSlen}])]
-    simp only [Outcome.bind]
-    rw [sliceCopy_tail _ _ {el} (by simp [{toSlen}])]
-    simp [{toSlen}]'''
+    first
+    | (rw [sliceCopy_mid _ _ 0 {el} (by omega) (by simp) (by simp [{toSlen}])]
+       simp only [Outcome.bind]
+       rw [sliceCopy_tail _ _ {el} (by simp [{toSlen}])]
+       simp [{toSlen}])
+    -- any other order / spelling of the copies: evaluate every checked splice (the lengths are known) and compare the byte lists
+    | simp [sliceCopy, {toSlen}, Outcome.bind]'''
     P['to_uncompressed'] = f'''
   funext p
   unfold Sm9.Gen.{ns}.to_uncompressed Sm9.Api.{g}ToUncompressed
@@ -287,8 +290,10 @@ def lib_proofs(ns):
   | none => rfl
   | some a =>
     simp only [Outcome.unwrap, bind, Outcome.bind]
-    rw [sliceCopy_tail _ _ 1 (by cases {aeven} <;> simp [{toSlen}])]
-    cases {aeven} <;> rfl'''
+    first
+    | (rw [sliceCopy_tail _ _ 1 (by cases {aeven} <;> simp [{toSlen}])]
+       cases {aeven} <;> rfl)
+    | (cases {aeven} <;> simp [sliceCopy, {toSlen}, Outcome.bind])'''
     return {f'{ns}.{k}': v for k, v in P.items()}
 
 POW_PROOF = '''
